@@ -32,11 +32,16 @@ RepOf(j) ==
 \* the persistence actions one request hands to the writer (user keys and registrations)
 UserKeys(X) == {q \in DOMAIN X.store : X.store[q].k # "none" /\ q[1] # SYS}
 RegKeysOf(X) == {q \in DOMAIN X.store : Len(q) = 4 /\ q[1] = SYS /\ q[2] = CLIENTS /\ q[4] \in {GG, LW} /\ X.store[q].k # "none"}
-ActsOf(X, Y) ==
+\* A registration leaves the table when its client's session ends (remove_grave_goods_and_last_will).
+\* When the KEY is deleted (delete / pdelete by its owner), delete_value returns early for everything
+\* under $SYS (persistence/mod.rs:160-163): the registration stays in the table  [D_REG_DELETE]
+Withdrawn(X, Y, r) ==
+  {q \in RegKeysOf(X) \ RegKeysOf(Y) : (r.op = "disconnect" /\ q[3] = r.c) \/ ~Flag("D_REG_DELETE")}
+ActsOf(X, Y, r) ==
        {[op |-> "upd", k |-> q, e |-> Y.store[q]] : q \in {x \in UserKeys(Y) : x \notin UserKeys(X) \/ X.store[x] # Y.store[x]}}
   \cup {[op |-> "del", k |-> q] : q \in UserKeys(X) \ UserKeys(Y)}
   \cup {[op |-> "reg", k |-> q, v |-> Y.store[q].v] : q \in {x \in RegKeysOf(Y) : x \notin RegKeysOf(X) \/ X.store[x].v # Y.store[x].v}}
-  \cup {[op |-> "unreg", k |-> q] : q \in RegKeysOf(X) \ RegKeysOf(Y)}
+  \cup {[op |-> "unreg", k |-> q] : q \in Withdrawn(X, Y, r)}
 
 \* table state: [tbl: key -> entry, regs: reg key -> token]
 EmptyT == [tbl |-> <<>>, regs |-> <<>>]
@@ -83,7 +88,7 @@ Consume ==
        [] j.op = "req" ->
             /\ Step(ReqOf(j.r))
             /\ out'.rep = RepOf(j.rep)
-            /\ groups' = IF ActsOf(S, S') = {} THEN groups ELSE Append(groups, ActsOf(S, S'))
+            /\ groups' = LET as == ActsOf(S, S', ReqOf(j.r)) IN IF as = {} THEN groups ELSE Append(groups, as)
             /\ UNCHANGED stopped
        [] j.op = "stop" ->
             /\ stopped' = IF j.clean THEN "clean" ELSE "abrupt"
